@@ -5,7 +5,9 @@ from vlib import hdrgen as G, lhaenc as E
 ID = "C12"
 LEAN_MODULES = ["LhasaV.Props.C12"]
 VH_FEATURES = ["header"]
-THEOREMS = {}
+THEOREMS = {"accept_sound": "full: every input byte string, every level incl. the common-CRC clause",
+            "bad_header_not_returned": "full (contrapositive)", "accept_has_name": "full", "read_consumes": "full",
+            "short_input_rejected": "full"}
 TRUSTED = ["spec LhasaV.Spec.Integrity (the integrity rules written from the format description, independent of the parser model)",
            "hand-written parser model LhasaV.Model.Header, tied to the C by the differential run"]
 ASSUMPTIONS = ["input bytes are presented at the header start (the SFX scan is C16's subject)"]
